@@ -66,19 +66,6 @@ static int k_flags;   /* the option's flag word: a LITERAL chosen by FOR_EACH_FL
 	else if (g_ == 4) { k_flags = CFGF_MULTI; stmt; } else { k_flags = FL_DATA | CFGF_MULTI | CFGF_LIST | CFGF_RESET; stmt; } } while (0)
 #define FOR_RESET_FLAGS(stmt) do { if (nondet_bool()) { k_flags = FL_DATA; stmt; } else { k_flags = CFGF_RESET | CFGF_LIST; stmt; } } while (0)
 
-/* type and count are CONSTANTS at every call site (the dispatchers below split the cases), so that symbolic
- * execution prunes the arms of the code under proof that belong to other option types (DESIGN 2.2) */
-static int k_leftover; /* count 0: values == NULL (0) or a left-over empty slot array (1, e.g. after removing the last section) */
-static int k_flags;   /* the option's flag word: a LITERAL chosen by FOR_EACH_FLAGS (a symbolic word keeps symbolic
-                       * execution from pruning the RESET / LIST arms of the code under proof: 5 s -> 100 s) */
-#define FL_DATA (CFGF_NOCASE | CFGF_NODEFAULT | CFGF_DEFINIT | CFGF_IGNORE_UNKNOWN | CFGF_DEPRECATED | CFGF_DROP | CFGF_COMMENTS | CFGF_MODIFIED | CFGF_KEYSTRVAL)
-#define FL3(stmt, base) do { unsigned g_ = nondet_uint(); \
-	if (g_ == 0) { k_flags = (base); stmt; } else if (g_ == 1) { k_flags = (base) | CFGF_RESET; stmt; } \
-	else if (g_ == 2) { k_flags = (base) | CFGF_LIST; stmt; } else if (g_ == 3) { k_flags = (base) | CFGF_LIST | CFGF_RESET; stmt; } \
-	else if (g_ == 4) { k_flags = (base) | CFGF_MULTI; stmt; } else { k_flags = (base) | CFGF_MULTI | CFGF_LIST | CFGF_RESET; stmt; } } while (0)
-/* every combination of the control bits RESET / LIST / MULTI the store functions branch on (MULTI|RESET only together
- * with LIST), each with all other bits clear and with all other bits set */
-#define FOR_EACH_FLAGS(stmt) do { if (nondet_bool()) FL3(stmt, 0); else FL3(stmt, FL_DATA); } while (0)
 static void mk_opt(cfg_opt_t *o, cfg_type_t type, unsigned n, _Bool allow_simple)
 {
 	memset(o, 0, sizeof *o);
